@@ -5,7 +5,7 @@ FILES = gencheck.GEN_FILES
 RULE = genprops.RULES["C17"]
 ASSUMPTIONS = ["the catalogue of grammar rules is the one listed in DESIGN §3 C17 (rules the code does not enforce and the property does not name are not demanded)"]
 run = genprops.run_c17
-replay = genprops.replay_generic
+replay = genprops.replay_c17
 
 
 def oracle_sweep(ctx):
